@@ -5,6 +5,18 @@ HERE = os.path.dirname(os.path.dirname(os.path.abspath(__file__)))
 PY = '/venv/bin/python'
 
 CHECKS = {
+ 'C04': dict(sec='2/C04', cat='exploration',
+   text='Every generated pair of point lists (clusters at all declinations, RA seam, all-sky, list 2 wider than list 1, coincident points, threshold shells at m(1+-10^-u), and points placed 1e-9..1e-3 cell widths from the RA/Dec edges, padded bounds, seam cell and polar slice of the chunk grid recorded from the live call) is matched by the real spherematch as given, permuted, and with another chunk size; a brute-force long-double oracle checks completeness, exactly-once, soundness, distances, order and - for maxmatch>0 - cap and greedy maximality. A spatial hash over a continuous domain can only be sampled: exploration with adversarial placement and reach evidence.',
+   note='Trusts numpy long double for the reference separations and the ambiguity band max(1e-9*m, 1e-11 deg); pairs inside the band are undecided by construction. Guided generators read the chunk geometry of the tree under test; replays store materialised coordinates.',
+   tech='runtime monitoring: boundary recorder + brute-force reference oracle, geometry-guided generators from the recorded chunks instance, permutation/chunk-size metamorphic re-execution'),
+ 'C05': dict(sec='2/C05', cat='exploration',
+   text='Every generated point list (chains, serpentines and rings crossing many chunks, RA 0/360 and the poles, clumps hugging the edges and corners of the recorded chunk grid, polar caps, all-sky scatter, coincident and two-point inputs, grids clamped at +-90) is grouped by the real spheregroup as given, permuted and with another chunk size; a long-double union-find oracle checks that ingroup is exactly the friends-of-friends partition numbered by first member and that multgroup/firstgroup/nextgroup describe the same partition (bounded walks). All 45750 placements of 2-4 points on a 5x5 lattice at a chunk corner, on the seam and at Dec 89 are enumerated in the thorough tier; outside the lattice this is sampling.',
+   note='Trusts numpy long double for separations and the band max(1e-9*L, 1e-11 deg) (a case is undecided only if the band changes the partition); the lattice sub-space is exhaustive for L = 0.1 deg, default chunk size and the three sites only.',
+   tech='runtime monitoring: boundary recorder + union-find reference oracle, mutual-consistency checker for the four arrays, geometry-guided and bounded-exhaustive generators'),
+ 'C16': dict(sec='2/C16', cat='exploration',
+   text='Every readspec call on generated survey trees is compared cell by cell with the value rebuilt from the request and a unique-id code (file, HDU, fibre, pixel) stored in every number of the tree, over scrambled/repeated multi-plate requests, all calling conventions, three ways of locating files incl. a decoy tree, and every spec_append call (direct or inside readspec) is checked against a placement model (shape, offsets, zeros elsewhere, ids conserved, inputs untouched). Sampling of the request/tree space with adversarial placement and reach evidence.',
+   note='Trusts astropy.io.fits writing/reading, numpy fancy indexing, the id code in vlib/gen/survey_tree.py and the request expansion written from the docstring; align=True, znum=, plates > 9999 are not covered.',
+   tech='runtime monitoring: unique-id survey trees + decoy tree, reference request expansion, spec_append placement monitor'),
  'C19': dict(sec='2/C19', cat='exploration',
    text='airtovac/vactoair, sdssflux2ab and filter_thru are executed on generated inputs of every flavour the property names (float, numpy scalar, 0-d/1-d/2-d arrays in several layouts, scalar and array Quantity in A/nm/um/m; 5-band arrays incl. negative fluxes; flux images over in-band, out-of-band and noisy wavelength solutions given as image and as trace set, masks hiding NaN/inf) and every return value is checked against the property\'s relations (round trip <= 1e-6 A, unchanged below 2000 A, unit/shape/flavour agreement, unmodified arguments, one AB offset per band in all three forms, linearity, constant -> constant, bounds, exact mask independence, wset == waveimg) plus an independent weighted-mean model. Held on the executions observed.',
    note='Trusts numpy/long-double arithmetic and the check\'s own parser of the filter tables of the tree under test; wavelengths within 1e-9 of 2000 A are undecided for unit-converted input; fully masked traces and the value for a band without overlap are outside the asserted domain.',
